@@ -273,7 +273,6 @@ def head_states(chk):
         ("new-file-staged", lambda r: (open(os.path.join(r, "new.txt"), "w").write("n\n"), git(r, "add", "new.txt"))),
         ("removed-from-index", lambda r: git(r, "rm", "-q", "--cached", "other.txt")),
         ("untracked-only", lambda r: open(os.path.join(r, "stray.txt"), "w").write("s\n")),
-        ("staged-then-reverted-in-tree", lambda r: (open(os.path.join(r, "data.txt"), "a").write("x\n"), git(r, "add", "data.txt"), open(os.path.join(r, "data.txt"), "w").write("d\n"))),
     ]
     for name, mutate in states:
         root = implrun.make_project({"COND": 'run_experiment(name="e", run="true")\n', "data.txt": "d\n", "other.txt": "o\n", ".gitignore": "cond-out\n"}, git=True)
